@@ -119,6 +119,18 @@ int main(void){
     if (n1 == n2) for (i = 0; i < n1; i++) uk_assert(c1[i] == c2[i], "C10: the reference resolves against the base back to the source (after dot-segment normalisation)");
     U(uriFreeUriMembersMm)(&T, &mm);
   }
+  /* the same through the text: the reference written with uriToString, parsed again and resolved */
+  { URI D2, T2; const CH *e2 = 0; int l2 = 0;
+    rc = U(uriParseSingleUriExMm)(&D2, dtext, dtext + dl, &e2, &mm);
+    uk_assert(rc == URI_SUCCESS, "C10: the produced reference is a valid URI reference when written out");
+    if (rc == URI_SUCCESS){
+      rc = U(uriAddBaseUriExMm)(&T2, &D2, &B, URI_RESOLVE_STRICTLY, &mm);
+      uk_assert(rc == URI_SUCCESS, "C10: the written reference resolves against the base");
+      if (rc == URI_SUCCESS){ CH *g2 = recompose(&T2, &l2); n1 = canon(g2, l2, c1, tmp); n2 = canon(st, sn, c2, tmp);
+        uk_assert(n1 == n2, "C10: the written reference resolves against the base back to the source (length)");
+        if (n1 == n2) for (i = 0; i < n1; i++) uk_assert(c1[i] == c2[i], "C10: the written reference resolves against the base back to the source");
+        U(uriFreeUriMembersMm)(&T2, &mm); }
+      U(uriFreeUriMembersMm)(&D2, &mm); } }
 #endif
 #ifdef P_C07
   chk_reparse_stable(&D);
